@@ -956,7 +956,11 @@ def result_edges(f, callee, truth):
             continue
         core = t.get("core") or {}
         leaf = t.get("leafrefs") or t.get("refs") or []
-        direct = any(r.startswith("c:") and is_c(r[2:]) for r in leaf) and not [r for r in leaf if r.startswith("c:") and not is_c(r[2:]) and "operator" not in r]
+        # the tested expression *is* the call (its arguments may contain other calls): a call event of the block with that text
+        norm_ = lambda x: re.sub(r"\s+", "", x or "")
+        direct = any(r.startswith("c:") and is_c(r[2:]) for r in leaf) and (
+            not [r for r in leaf if r.startswith("c:") and not is_c(r[2:]) and "operator" not in r] or
+            any(x["k"] == "call" and is_c(x.get("callee") or "") and norm_(x.get("t")) == norm_(core.get("t")) for x in b.elems))
         via = core.get("v") in rv and core.get("v") is not None
         if not (direct or via):
             continue
